@@ -255,6 +255,8 @@ inductive Outcome
 
 inductive Ev (κ : Type)
   | start (c : Nat) (batch : Bool) (es : List (κ × Nat))   -- call c begins: entries (key, number of bound values)
+      -- (the harness writes 1000 + n for a list of n values one of which no column type accepts: a value list whose
+      --  'number' equals no column count - Marshal fails where the count check would: value error, nothing sent)
   | prep (f : Nat) (k : κ) (r : PAns)                      -- the server received PREPARE number f for key k, answers r
   | rm (k : κ) (f : Nat)                                   -- flight f left the cache (OnEvicted)
   | exec (c : Nat) (ids : List Id) (a : XAns)              -- the server received call c's EXECUTE/BATCH with these ids, answers a
